@@ -171,7 +171,11 @@ JRecognised == IsJ =>
   /\ Last.hint = Last.x
   /\ Last.err = "" => Last.txid = 1
   /\ Last.err = (IF Last.y = 0 /\ Last.noamt = 1 THEN "missing" ELSE "")
-JGood == IsJ /\ Last.err = "" /\ Last.x >= 1 /\ Last.x + 1 <= Len(disk[Jp].revlog)
+  \* y = 2: the chain watcher's own code path (handleCommitSpend) on a copy of the channel that was
+  \* read from the database before any of these heights was revoked and that nobody updates: what
+  \* is on disk must suffice - it hands a retribution for exactly this state to the breach arbitrator
+  /\ Last.y = 2 => Last.rec = 1
+JGood == IsJ /\ Last.y \in {0, 1} /\ Last.err = "" /\ Last.x >= 1 /\ Last.x + 1 <= Len(disk[Jp].revlog)
 
 SameBag(s, S) ==     \* recorded amounts s (seq of records with .amt) = model HTLC set S as bags of satoshi amounts
   /\ Len(s) = Cardinality(S)
@@ -208,8 +212,29 @@ JEngine == JGood =>
         IF LeaseJusticeQuirk /\ r.k = 0 /\ HasCltv(Jp)
         THEN r.eng = 0 /\ r.eng2 = 0
         ELSE r.eng = 1 /\ r.eng2 = 1
-  /\ Last.sl2 = 1 => /\ Len(Last.sl) = NHtlcOut(Jc, Jp, FALSE)
-                     /\ \A s \in Range(Last.sl) : s.eng = 1 /\ s.amt > 0
+
+\* "... and for the second-level output if the cheater first advances an HTLC": every untrimmed HTLC
+\* of the revoked commitment is followed to the output its second-level transaction created - the
+\* output at the position of the spending input - with that output's amount (HTLC amount minus the
+\* cheater's second-level fee), and the justice input is valid.  Both when the cheater uses one
+\* transaction per HTLC and when it aggregates all of them into one (anchor channel types).
+SameBagBy(s, S, val(_)) ==
+  /\ Len(s) = Cardinality(S)
+  /\ \A v \in {s[i].amt : i \in 1..Len(s)} \cup {val(x) : x \in S} :
+        CountSeq(s, LAMBDA r : r.amt = v) = Cardinality({x \in S : val(x) = v})
+SLKind(s, k) == SelectSeq(s, LAMBDA r : r.k = k)
+SLOK(s, batched) ==
+  /\ Len(s) = NHtlcOut(Jc, Jp, FALSE)
+  /\ \A r \in Range(s) : r.eng = 1 /\ r.oidx = r.j /\ r.amt = r.txamt
+  /\ batched => Cardinality({r.oidx : r \in Range(s)}) = Len(s)
+  /\ Cardinality({r.idx : r \in Range(s)}) = Len(s)
+  \* offered by the victim = received by the cheater: it advances them with success transactions
+  /\ SameBagBy(SLKind(s, 2), NDO(Jc, Jp, FALSE), LAMBDA x : Sat(x.amt) - SecondFee(Jc.fee, FALSE))
+  /\ SameBagBy(SLKind(s, 3), NDI(Jc, Jp, FALSE), LAMBDA x : Sat(x.amt) - SecondFee(Jc.fee, TRUE))
+JSecondLevel == JGood =>
+  /\ Last.sl2 = 1 /\ SLOK(Last.sl, FALSE)
+  /\ Last.bsl2 = (IF HasAnchors /\ NHtlcOut(Jc, Jp, FALSE) >= 2 THEN 1 ELSE 0)
+  /\ Last.bsl2 = 1 => SLOK(Last.bsl, TRUE) /\ Last.ball = 1
 
 -----------------------------------------------------------------------------
 (* the base invariants, not evaluated on observation lines (those carry no projection) *)
